@@ -58,7 +58,10 @@ def real_basis(shape, structure):
 
 def to_frac(x, tol=1e-9, maxden=1 << 20):
     """float -> Fraction; must be (numerically) a small dyadic/rational, else ValueError (inconclusive)"""
-    f = Fraction(float(x)).limit_denominator(maxden)
+    f = Fraction(float(x))
+    if f.denominator <= (1 << 44):
+        return f            # a short dyadic rational: the double is exact
+    f = f.limit_denominator(maxden)
     if abs(float(f) - float(x)) > tol:
         raise ValueError(f"coefficient {x!r} is not a small rational: instance data must be dyadic")
     return f
